@@ -120,6 +120,17 @@ CHECKS.update({
             BASE_NOTE + " UBSan groups: undefined (incl. bounds, signed overflow, null, shift); implicit-conversion and unsigned overflow are deliberately off.", "3/C09"),
 })
 
+CHECKS.update({
+    "C03": ("translation_validation",
+            "translation validation by execution: real compiler pipeline with conservation contracts on every pass, emitted tables run through the real interpreters and compared with zic on the same text",
+            "Programs are TZ sources (lines recorded beside the shipped tables, the real 2025b release, seed-driven mutants). "
+            "Each is compiled in-process by the real Extractor/Transformer/generators (basic and extended scope) with a "
+            "conservation contract on every Transformer pass; every emitted zone is executed by the Python ZoneSpecifier and, as "
+            "generated C++ tables compiled in their own namespace, by the C++ processors, and compared with zic; every input "
+            "zone and link must be emitted or listed as removed with a reason. 'Any source' is sampled by mutation, not enumerated.",
+            BASE_NOTE + " Oracle: installed zic 2.36 on the identical text; zones carrying a truncation note are excluded (counted).", "3/C03"),
+})
+
 PLANNED = {
 }
 
